@@ -7,6 +7,7 @@ from props.c04 import cmp, strip, templates
 from props.c01 import flip_char, flip_bit_b64, positions
 
 ID = "C02"
+CORPUS_FIRST = True
 RULE = ("valid JWEs for key-management x content-encryption combinations (jose-made and Lean-made), aad absent / shorter "
         "/ equal / longer than the protected header / empty, zip on/off; then the mutation stream: every character of "
         "iv and tag, position classes (incl. the tail) of protected, aad, ciphertext, encrypted_key, epk.x/y/crv, apu, "
